@@ -305,6 +305,16 @@ def copy_history(hid, clsname, o):
             before = proj(o)
             mutate_inplace(c)
             ev.append({"op": "same", "what": "source-after-mutating-its-" + what, "a": before, "b": proj(o), "err": None})
+            # a SECOND deep copy taken after the first one was edited is again a copy of the source (not the first copy again)
+            e2 = {"op": "same", "what": "second-" + what + "-after-the-first-copy-was-edited", "a": proj(o), "b": {}, "err": None}
+            try:
+                c2 = fn()
+                e2["b"] = proj(c2)
+                if c2 is c:
+                    e2["err"] = "the second deep copy IS the first copy (same object)"
+            except Exception as ex:
+                e2["err"] = "%s: %s" % (type(ex).__name__, str(ex)[:150])
+            ev.append(e2)
     return {"id": hid, "cls": clsname, "ev": ev}
 
 
